@@ -725,26 +725,26 @@ class ThurstoneMostellerFull:
                 if team_q.rank > team_i.rank:
                     omega += sigma_squared_to_ciq * v(delta_mu, self.kappa / c_iq)
                     delta += (
-                        gamma_value
-                        * sigma_squared_to_ciq
+                        sigma_squared_to_ciq
                         / c_iq
                         * w(delta_mu, self.kappa / c_iq)
+                        * gamma_value
                     )
                 elif team_q.rank < team_i.rank:
                     omega += -sigma_squared_to_ciq * v(-delta_mu, self.kappa / c_iq)
                     delta += (
-                        gamma_value
-                        * sigma_squared_to_ciq
+                        sigma_squared_to_ciq
                         / c_iq
                         * w(-delta_mu, self.kappa / c_iq)
+                        * gamma_value
                     )
                 else:
                     omega += sigma_squared_to_ciq * vt(delta_mu, self.kappa / c_iq)
                     delta += (
-                        gamma_value
-                        * sigma_squared_to_ciq
+                        sigma_squared_to_ciq
                         / c_iq
                         * wt(delta_mu, self.kappa / c_iq)
+                        * gamma_value
                     )
 
             intermediate_result_per_team = []
